@@ -400,3 +400,19 @@ Proof. reflexivity. Qed.
 Definition lexer_Rune (inp : list Z) : Z := hd 0 inp.
 Definition lexer_Ended (inp : list Z) : bool := match inp with [] => true | _ => false end.
 Definition lexer_Buffered (buf : list Z) : list N := utf8_encode (map Z.to_N buf).
+
+(** ** [strings.Fields] (on ASCII white space) and a [map[string]bool] that is
+    only built by [strutil.MakeSet] and only looked up: a list with membership. *)
+Definition strings_is_space (c : N) : bool :=
+  ((c =? 9) || (c =? 10) || (c =? 11) || (c =? 12) || (c =? 13) || (c =? 32))%N.
+Fixpoint strings_Fields_aux (cur : list N) (s : list N) : list (list N) :=
+  match s with
+  | [] => match cur with [] => [] | _ => [rev cur] end
+  | c :: r =>
+      if strings_is_space c
+      then match cur with [] => strings_Fields_aux [] r | _ => rev cur :: strings_Fields_aux [] r end
+      else strings_Fields_aux (c :: cur) r
+  end.
+Definition strings_Fields (s : list N) : list (list N) := strings_Fields_aux [] s.
+Definition strutil_MakeSet (l : list (list N)) : list (list N) := l.
+Definition go_set_mem (k : list N) (set : list (list N)) : bool := existsb (beq_bytes k) set.
